@@ -679,10 +679,15 @@ class UserTrackingManager:
 
     def _get_tracked_user_object(self, user: User) -> TrackedUser:
         """Gets or creates a tracked user object"""
-        if user.name in self._tracked_users:
-            tracked_user = self._tracked_users[user.name]
+        tracked_user = self._tracked_users.get(user.name)
 
-        else:
+        # The tracking task has already finished but the tracked user has not
+        # yet been removed (the done callback of the task is only called during
+        # the next iteration of the loop): nothing would handle a new request
+        if tracked_user and tracked_user.task and tracked_user.task.done():
+            tracked_user = None
+
+        if tracked_user is None:
             tracked_user = TrackedUser(user)
             tracked_user.task = asyncio.create_task(
                 self._tracking_task(tracked_user))
@@ -707,7 +712,9 @@ class UserTrackingManager:
             )
 
         finally:
-            self._tracked_users.pop(tracked_user.user.name, None)
+            # Could already have been replaced by a new object
+            if self._tracked_users.get(tracked_user.user.name) is tracked_user:
+                self._tracked_users.pop(tracked_user.user.name)
 
     async def _on_state_changed(self, event: ConnectionStateChangedEvent):
         if not isinstance(event.connection, ServerConnection):
